@@ -359,14 +359,14 @@ class Net:
 KNOWN_CODES = (1, 2, 3, 4, 5, 6, 7, 8, 9)
 
 
-def header_fields(raw):
-    """{field code: (signature of its variant, value)} of the header-field array (a later duplicate wins, as in
-    parseMessage): what a peer that validates header fields looks at."""
+def header_field_list(raw):
+    """[(field code, signature of its variant, value)] of the header-field array, in wire order, EVERY occurrence:
+    the harness's own reader (parseMessage keeps only the last occurrence of a repeated field)."""
     import struct
     from txdbus import marshal
     lend = raw[:1] == b'l'
     end = 16 + struct.unpack(('<' if lend else '>') + 'I', raw[12:16])[0]
-    off, out = 16, {}
+    off, out = 16, []
     while off < end:
         off = (off + 7) // 8 * 8
         code, slen = raw[off], raw[off + 1]
@@ -374,8 +374,13 @@ def header_fields(raw):
         off += 2 + slen + 1
         n, v = marshal.unmarshal(sig, raw, off, lend, [])
         off += n
-        out[code] = (sig, v[0] if v else None)
+        out.append((code, sig, v[0] if v else None))
     return out
+
+
+def header_fields(raw):
+    """{field code: (signature of its variant, value)}: a later duplicate wins, as in parseMessage."""
+    return dict((code, (sig, v)) for code, sig, v in header_field_list(raw))
 
 
 def parse(message, raw, sent=False):
@@ -395,6 +400,10 @@ def parse(message, raw, sent=False):
         'hfields': dict((str(c), hf[c][0]) for c in hf if c != 7),
         'hvalues': dict((str(c), repr(hf[c][1])) for c in hf if c != 7),
         'extra': extra or None,
+        # every SENDER field in the bytes, in order (a receiver may take the first occurrence)
+        'senders': [v for code, _, v in header_field_list(raw) if code == 7],
+        'repeated': sorted(set(c for c, _, _ in header_field_list(raw)
+                               if sum(1 for c2, _, _ in header_field_list(raw) if c2 == c) > 1)),
     }
     if (m.sender is None or m.sender == BUS) and not sent:
         d['btok'] = body_token(m.signature, m.body)         # built by the bus
@@ -472,6 +481,9 @@ def build_foreign(B, md):
         fields.append((code, ty, v))
     if f.get('rev'):
         fields.reverse()
+    # repeated header fields: 'pre' goes in front of everything (the regular occurrence is the LAST one, which is the
+    # one parseMessage keeps), 'post' behind everything (then the regular occurrence is the first)
+    fields = [tuple(x) for x in f.get('pre', [])] + fields + [tuple(x) for x in f.get('post', [])]
     return ref_serialize('l' if lend else 'B', t, f.get('flags', md.get('flags', 0)), md['serial'], fields, bin_body)
 
 
@@ -567,11 +579,19 @@ def op_to_msgs(op, names):
 
 
 def resolve_at(md, names):
-    for f in ('dest', 'forged'):
-        v = md.get(f)
+    def res(v):
         if isinstance(v, str) and v.startswith('@'):
             j = int(v[1:])
-            md[f] = names[j] if j < len(names) and names[j] else ':1.%d' % (90 + j)
+            return names[j] if j < len(names) and names[j] else ':1.%d' % (90 + j)
+        return v
+    for f in ('dest', 'forged'):
+        md[f] = res(md.get(f))
+    if md.get('foreign'):
+        fo = dict(md['foreign'])
+        for k in ('pre', 'post'):
+            if fo.get(k):
+                fo[k] = [[c, t, res(v)] for c, t, v in fo[k]]
+        md['foreign'] = fo
     return md
 
 
@@ -853,6 +873,14 @@ def oracle(net):
             if d['sender'] != true:
                 add('sender-not-true', 'a message from %s is delivered with sender %r (it wrote %r)'
                     % (true, d['sender'], m['sender']), d['sender'], true)
+            elif d['senders'] != [true]:
+                # every SENDER field of the delivered BYTES, not only the occurrence parseMessage keeps
+                add('sender-not-true', 'a message from %s is delivered with the SENDER fields %r (it wrote %r): a receiver '
+                    'that takes the first occurrence sees a forged sender' % (true, d['senders'], m['senders']),
+                    d['senders'], [true])
+            if d['repeated']:
+                add('forwarded-repeats-header-field', 'the bus wrote header field(s) %s more than once' % d['repeated'],
+                    d['repeated'], [])
             compare_forwarded(add, d, m)
             recv[j].append((true, d['dest'], d['serial']))
         dest = m['dest']
@@ -1016,6 +1044,8 @@ def judge(ctx, stream, ops, model=True, collect=None):
                 ctx.stat('flags-beyond-0x3')
             if s['extra']:
                 ctx.stat('unknown-header-field')
+            if s['repeated']:
+                ctx.stat('repeated-header-field')
             if s['serial'] >= 2 ** 31 or (s['rs'] or 0) >= 2 ** 31:
                 ctx.stat('serial-or-reply-serial>=2**31')
             if st.op and st.op[0] == 'addmatch' and 'sender' in st.op[1]:
@@ -1198,7 +1228,36 @@ def random_foreign(rng, t):
         f['x'] = rng.choice([[[20, 'u', 9]], [[33, 's', 'zz']], [[20, 'u', 9], [200, 's', 'q']]])
     if rng.random() < 0.3:
         f['rev'] = True
+    if rng.random() < 0.15:
+        f[rng.choice(['pre', 'post'])] = [[7, 's', rng.choice(['@0', '@1', '@2', 'org.ex.A', ':1.99'])]]
     return f
+
+
+def repeated_field_histories():
+    """Hand-crafted headers that repeat a field (parseMessage keeps the last occurrence).  Such a message is not a valid
+    DBus message; what is judged is what the statement says whatever the originator wrote: the delivered bytes carry
+    exactly one SENDER field, the true name."""
+    cases = [
+        {'pre': [[7, 's', '@2']]},                    # forged, then the client's own name
+        {'post': [[7, 's', '@2']]},                   # own name, then forged
+        {'pre': [[7, 's', '@2'], [7, 's', 'org.ex.A']]},
+        {'pre': [[7, 's', '@0']]},                    # own name twice
+        {'pre': [[6, 's', '@2']]},                    # DESTINATION twice: first client 2, last client 1
+        {'pre': [[3, 's', 'Other'], [7, 's', '@2']]},
+        {'post': [[7, 's', '@0']], 'forged2': True},
+    ]
+    for t in (1, 2, 3, 4):
+        for k, c in enumerate(cases):
+            ops, serial = setup3(3)
+            ops.append(['match', 2, serial, {'interface': 'org.ex.I'}, 0])
+            f = {'flags': 0}
+            f.update((x, c[x]) for x in ('pre', 'post') if x in c)
+            md = dict(t=t, serial=serial + 1, dest='@1', forged='@2' if c.get('forged2') else '@0', path='/x',
+                      iface='org.ex.I', member='Foo', err='org.ex.Error', rs=3, body='s', foreign=f)
+            ops.append(['msg', 0, md])
+            if t == 4:
+                ops.append(['msg', 0, dict(md, dest=None, serial=serial + 2)])
+            yield ops
 
 
 def foreign_histories():
@@ -1555,6 +1614,8 @@ def run(ctx):
     ctx.exhaustive = True
 
     for ops in foreign_histories():
+        go('foreign-messages', ops)
+    for ops in repeated_field_histories():
         go('foreign-messages', ops)
     ctx.note('interleavings enumerated: %s (clients, max messages) over %d message kinds' % (plans, len(KINDS)))
 
